@@ -29,7 +29,40 @@ type H struct {
 type Pub struct {
 	Mode   string `json:"mode"` // plain (Publish), values, cancelled
 	NVals  int    `json:"nvals,omitempty"`
+	// Foreign: the publish context is not one of the standard library's
+	// context types but an implementation of its own (own Done channel and
+	// Err, values delegated) - a merged or framework context.
+	Foreign bool `json:"foreign,omitempty"`
 }
+
+// foreignCtx is a context.Context implemented outside the context package.
+type foreignCtx struct {
+	mu   sync.Mutex
+	done chan struct{}
+	err  error
+	vals context.Context
+}
+
+func newForeignCtx(vals context.Context) (*foreignCtx, context.CancelFunc) {
+	c := &foreignCtx{done: make(chan struct{}), vals: vals}
+	return c, func() {
+		c.mu.Lock()
+		if c.err == nil {
+			c.err = context.Canceled
+			close(c.done)
+		}
+		c.mu.Unlock()
+	}
+}
+
+func (c *foreignCtx) Deadline() (time.Time, bool) { return time.Time{}, false }
+func (c *foreignCtx) Done() <-chan struct{}       { return c.done }
+func (c *foreignCtx) Err() error {
+	c.mu.Lock()
+	defer c.mu.Unlock()
+	return c.err
+}
+func (c *foreignCtx) Value(k any) any { return c.vals.Value(k) }
 
 type Case struct {
 	Handlers  []H    `json:"handlers"`
@@ -213,7 +246,11 @@ func Run(c *Case) *vkit.Outcome {
 				ctx = context.WithValue(ctx, vk(k), fmt.Sprintf("v%d-%d", id, k))
 			}
 			ps.nvals = p.NVals
-			ps.ctx, ps.cancel = context.WithCancel(ctx)
+			if p.Foreign {
+				ps.ctx, ps.cancel = newForeignCtx(ctx)
+			} else {
+				ps.ctx, ps.cancel = context.WithCancel(ctx)
+			}
 			if p.Mode == "cancelled" {
 				ps.cancel()
 				ps.cancelAt = 0
